@@ -84,7 +84,9 @@ pub fn strategy(tier: Tier) -> BoxedStrategy<Scenario> {
             let mut c2 = vec![Op::Yield; d2];
             c2.push(Op::Call { to: F, id: 2, timeout_ms: None });
             // a hanging pre_start must be ended by somebody: late kill (also ends successful starts)
-            let late = vec![Op::Sleep(30), Op::Kill(F), Op::Sleep(5), Op::Wait { to: F, timeout_ms: None }, Op::Spawn(R), Op::Probe(H), Op::WhereIs(0)];
+            // ... and afterwards somebody who still holds the reference tries to put the dead actor under
+            // a live supervisor (a hand-over loop re-linking stale handles): it must stay in nobody's child set
+            let late = vec![Op::Sleep(30), Op::Kill(F), Op::Sleep(5), Op::Wait { to: F, timeout_ms: None }, Op::Link { child: F, sup: O }, Op::Yield, Op::Spawn(R), Op::Probe(H), Op::WhereIs(0)];
             Scenario { specs: vec![holder, sup, other, f, r], clients: vec![c0, c1, c2, disturb, late], schedule }
         })
         .boxed()
@@ -284,6 +286,6 @@ impl Part for C08 {
         }
     }
     fn rule() -> &'static str {
-        "generated spawn under test (8 variants incl. thread-local and instant; no name / a taken name / a free name; linked to a supervisor that may be draining, stopping or killed) whose pre_start performs generated side effects (group joins, group monitoring, link to a third actor, sends, self-sends, leaked myself used by clients that queue casts and calls) before failing by Err, panic, external kill, task abort, supervisor refusal, or by the spawning future being dropped after k polls (cut-point injection); oracle = residue predicate over registries, groups, links, supervision logs, queued calls and waiters at quiescence + name reuse + holder untouched; non-trivial = the start failed after pre_start had begun and performed >=1 side effect"
+        "generated spawn under test (8 variants incl. thread-local and instant; no name / a taken name / a free name; linked to a supervisor that may be draining, stopping or killed) whose pre_start performs generated side effects (group joins, group monitoring, link to a third actor, sends, self-sends, leaked myself used by clients that queue casts and calls) before failing by Err, panic, external kill, task abort, supervisor refusal, or by the spawning future being dropped after k polls (cut-point injection), followed by a late attempt to link the dead actor under a live one; oracle = residue predicate over registries, groups, links, supervision logs, queued calls and waiters at quiescence + name reuse + holder untouched; non-trivial = the start failed after pre_start had begun and performed >=1 side effect"
     }
 }
